@@ -36,7 +36,7 @@ def edits(game):
         pc = posclass(s, n)
         for val in (-1, -1e-300):
             g = mk(); g["rewards"][s] = val; yield "reward:%r" % val, pc, g
-        for val in ("player 1", "", None):
+        for val in ("player 1", "", None, ["Player 1"], {}):
             g = mk(); g["players"][s] = val; yield "owner:%r" % (val,), pc, g
         for val, nm in (([], "empty"), (None, "None")):
             g = mk(); g["transition_list"][s] = val; yield "transitions:%s" % nm, pc, g
